@@ -575,8 +575,16 @@ class FastSimulation(object):
             with open(self.code_file, 'w') as file:
                 file.write(s)
 
-        self.tracer._set_initial_values(self.default_value, self.regs.copy(),
-                                        copy.deepcopy(self.mems))
+        # keyed like Simulation does (Register object, memid), which is what
+        # the Verilog testbench generator looks up
+        init_memvalue = {}
+        for net in self.block.logic_subset('m@'):
+            mem = net.op_param[1]
+            if not isinstance(mem, RomBlock):
+                init_memvalue[mem.id] = copy.deepcopy(self.mems[self._mem_varname(mem)])
+        self.tracer._set_initial_values(self.default_value,
+                                        {r: self.regs[r.name] for r in reg_set},
+                                        init_memvalue)
 
         context = {}
         logic_creator = compile(s, '<string>', 'exec')
